@@ -2,9 +2,63 @@
 //! between index build and query).  The std HashMap is replaced by the
 //! ideal-hash model map (kani/support/verif_collections.rs): two keys address
 //! the same entry iff they are `==` AND feed identical bytes to the Hasher.
-#![allow(dead_code, unused_imports)]
+#![allow(dead_code, unused_imports, static_mut_refs)]
 use super::*;
 use std::hash::{Hash, Hasher};
+
+/// Index state built directly (struct literals), for harnesses in other
+/// modules that inject a clone-index state: entries (key truncated to
+/// `hash_length`, size, ONE offset each).
+pub(crate) fn mk_index1(hash_length: usize, key: &[u8], size: usize, off: u64) -> ChunkIndex {
+    let mut map = HashMap::new();
+    let mut k = HashSum::from(key);
+    k.truncate(hash_length);
+    let mut offsets = Vec::with_capacity(1);
+    offsets.push(off);
+    map.insert(k, ChunkLocation { size, offsets });
+    ChunkIndex { map, hash_length }
+}
+pub(crate) fn add_entry(idx: &mut ChunkIndex, key: &[u8], size: usize, off: u64) {
+    let mut k = HashSum::from(key);
+    k.truncate(idx.hash_length);
+    let mut offsets = Vec::with_capacity(1);
+    offsets.push(off);
+    idx.map.insert(k, ChunkLocation { size, offsets });
+}
+
+// ---------------------------------------------------------------------------
+// hook for CloneOutput-level harnesses (proofs/clone_output.rs): when
+// SCRIPTED_REMOVE != 0, `ChunkIndex::remove` answers from this script instead
+// of consulting the map (the mirror generator inserts the call under
+// cfg(kani)); what remove really does is decided by c02_index_lookup_step.
+// ---------------------------------------------------------------------------
+/// 0 = off (real remove); 1 = answer None; 2 = answer Some(location with REMOVE_N offsets)
+pub(crate) static mut SCRIPTED_REMOVE: u8 = 0;
+pub(crate) static mut REMOVE_SIZE: usize = 0;
+pub(crate) static mut REMOVE_N: usize = 0;
+pub(crate) static mut REMOVE_OFFS: [u64; 2] = [0; 2];
+pub(crate) static mut REMOVE_CALLS: usize = 0;
+pub(crate) static mut REMOVE_ASKED_B0: u8 = 0;
+pub(crate) fn scripted_remove(hash: &HashSum) -> Option<Option<ChunkLocation>> {
+    let mode = unsafe { SCRIPTED_REMOVE };
+    if mode == 0 {
+        return None;
+    }
+    unsafe {
+        REMOVE_CALLS += 1;
+        REMOVE_ASKED_B0 = hash.slice()[0];
+    }
+    if mode == 1 {
+        return Some(None);
+    }
+    let n = unsafe { REMOVE_N };
+    let mut offsets = Vec::with_capacity(2);
+    offsets.push(unsafe { REMOVE_OFFS[0] });
+    if n > 1 {
+        offsets.push(unsafe { REMOVE_OFFS[1] });
+    }
+    Some(Some(ChunkLocation { size: unsafe { REMOVE_SIZE }, offsets }))
+}
 
 /// records what a key feeds to a Hasher (<= 80 bytes)
 struct Rec {
@@ -37,7 +91,7 @@ fn fed<K: Hash + ?Sized>(k: &K) -> Rec {
 /// hasher  iff  h[..L] == k[..L].  (So a std HashMap finds the entry exactly
 /// when the truncated hashes agree, never otherwise.)
 #[kani::proof]
-#[kani::unwind(70)]
+#[kani::unwind(82)]
 fn c02_key_consistency() {
     let hsum: [u8; 64] = kani::any();
     let ksum: [u8; 64] = kani::any();
